@@ -25,6 +25,7 @@ RULE = (
     "the shared family objects: interleaved / nested / abandoned iterations, and for every ordered pair of families get_shape(name) in "
     "the first followed by the same name in the second (KeyError unless it tabulates the name itself), a user-built family reusing a "
     "stock name.  "
+    "Also: textbook face types (Platonic, Archimedean) and vertex figures (Catalan, by duality); get_shape(name) three times while the caller modifies the returned shape.  "
     "non-trivial = every entry (each is a distinct configuration)."
 )
 ASSUMPTIONS = ["the (V,E,F) table of the 31 Platonic/Archimedean/Catalan solids, the face-type table of the 18 Platonic/Archimedean solids and the Catalan-Archimedean duality table are taken from the literature and written into the check"]
